@@ -124,6 +124,7 @@ def main(tier, seed):
         modscope.W = scopes.W
         modscope.part_c18(chk, tier, jobs, oracle)
         modscope.part_c18_fields(chk, tier, jobs, oracle)
+        modscope.part_c18_names(chk, tier, jobs, oracle)
     finally:
         oracle.close(); scopes.W.cleanup()
     chk.assumptions += [
